@@ -89,9 +89,18 @@ def run(v, tier, seed):
 
     def harness(args, rep, what, timeout=300):
         rc, out, err = vlib.run([exe] + [str(a) for a in args], timeout=timeout)
-        rows = vlib.read_ndjson(rep) if os.path.exists(rep) else []
+        rows = []
+        if os.path.exists(rep):
+            for l in open(rep):
+                try:
+                    if l.strip(): rows.append(json.loads(l))
+                except ValueError: pass        # a line cut short by a crash of the code under test
         made.append(rep)
         hang = [r for r in rows if r.get("hang")]
+        crash = [r for r in rows if r.get("crash")]
+        if rc == 5 or crash or (rc is not None and rc < 0 and rc != -999):
+            v.violation("%s: the real code crashed (signal %s) in %s" % (what, crash[0]["crash"] if crash else -rc, crash[0]["where"] if crash else "?"), {"args": args, "where": crash[0]["where"] if crash else None}, tag="crash")
+            return rows, None
         if rc == 4 or hang:
             v.violation("%s: the real code did not come back within 20 s (%s)" % (what, (hang[0]["where"] if hang else "?")), {"args": args, "where": hang[0]["where"] if hang else None}, tag="hang")
             return rows, None
